@@ -118,6 +118,33 @@ def run(ctx):
             want = [prim(fb, "rln::utils::fr_to_bytes_le", val)]
             good = [a[3] for a in apps] == want
             why = "writes %s, specification %s" % ([sh(a[3], 200) for a in apps], sh(want[0], 200))
+            # the byte-level entry point accepts what the typed function accepts: besides the results of reading and decoding, the
+            # success path may only depend on guards that hold for EVERY supported arity 1..8 (a guard that rejects one of them makes the
+            # entry points disagree); each guard is evaluated for the eight lengths
+            if good and inner == "poseidon":
+                from .c08 import ord_eval
+                vec = F(("unwrap", call("rln::utils::bytes_le_to_vec_fr", I)), "0")
+                for a, v in p.conds():
+                    if a[0] == "ok":
+                        continue
+                    for L in range(1, 9):
+                        t = a[1] if a[0] == "b" else None
+                        if isinstance(t, tuple) and t and t[0] == "is_empty" and t[1] == vec:
+                            val_ = 0
+                        else:
+                            env = {("len", vec): L}
+                            for x in subterms(t if isinstance(t, tuple) else ()):
+                                # the length of the parameter table (one row per supported arity; its contents are R09-1's subject)
+                                if x[0] == "len" and isinstance(x[1], tuple) and x[1] and (x[1] == ("item", "rln::hashers::ROUND_PARAMS") or (x[1][0] == "constmem" and x[1][1] == "rln::hashers::ROUND_PARAMS")):
+                                    env[x] = len(SPEC_TABLE)
+                            val_ = ord_eval(t, env) if t is not None else None
+                        if val_ is None or bool(val_) != bool(v):
+                            good = False
+                            why = "the success path requires %s = %s, which does not hold for %d input(s): a supported arity is rejected by the byte-level entry point only" % (sh(a, 100), v, L) \
+                                if val_ is not None else "the success path depends on %s (not a guard on the number of inputs that can be evaluated)" % sh(a, 100)
+                            break
+                    if not good:
+                        break
         ctx.check(good, "R09-3", fn, "byte-level entry point = fr_to_bytes_le o typed function on the whole input", why, loc(it))
     # ---------------- R09-4 shape
     check_shape(ctx, fb)
